@@ -201,6 +201,22 @@ fn bodies(rng: &mut Rng, sw: &Swarm) -> Vec<Vec<u8>> {
         avps: Vec::new(),
     });
     out.push(zlb[2..].to_vec());
+    // a valid control message whose Length covers 1-5 ignored octets after
+    // the last AVP, and a ZLB with such a tail
+    {
+        let mut e = spec_encode(&m);
+        let k = rng.urange(1, 5);
+        let tail = rng.bytes(k);
+        e.extend_from_slice(&tail);
+        let l = e.len() as u16;
+        e[2..4].copy_from_slice(&l.to_be_bytes());
+        out.push(e[2..].to_vec());
+        let mut z = zlb.clone();
+        z.extend_from_slice(&tail);
+        let l = z.len() as u16;
+        z[2..4].copy_from_slice(&l.to_be_bytes());
+        out.push(z[2..].to_vec());
+    }
     let bk = *rng.pick(&NONTERMINAL);
     let bad = bad_record(rng, sw, bk).bytes;
     let mt = msgtype_record(rng);
@@ -321,7 +337,7 @@ impl Scenario for C14 {
     }
     fn meta() -> Meta {
         Meta {
-            rule: "fault site = the 16-bit flag word. Each run builds 14 bodies (valid control with AVPs, ZLB, control holding a bad AVP, truncated control, valid data bodies for all 8 L/S/O layouts, empty, garbage) and puts flag words in front of them: quick tier = all words at Hamming distance <= 2 from 0x1320, 0x0020, 0x5320, 0xD220 (sliced over the runs) plus PRNG words; thorough tier = all 65 536 words (8 per run over 8192 runs), each in front of every body kind. Every delivery goes to the 8 option sets and to try_read; cross-node invariants: try_read = version-only; for every ordered pair opts <= opts', Ok(m) under opts' implies Ok(m) under opts; each gate rejects exactly its strings (nibble != 2; reserved bits {0,1,2,3,10,11,13}; control P/O) and is otherwise transparent (full result equality, error lists included); with all checks off, normalising the owned bits leaves the result unchanged (data-message P/O excluded). distinct_nontrivial = distinct (flag word, body) pairs.",
+            rule: "fault site = the 16-bit flag word. Each run builds 16 bodies (valid control with AVPs, ZLB, both also with 1-5 ignored octets inside Length, control holding a bad AVP, truncated control, valid data bodies for all 8 L/S/O layouts, empty, garbage) and puts flag words in front of them: quick tier = all words at Hamming distance <= 2 from 0x1320, 0x0020, 0x5320, 0xD220 (sliced over the runs) plus PRNG words; thorough tier = all 65 536 words (8 per run over 8192 runs), each in front of every body kind. Every delivery goes to the 8 option sets and to try_read; cross-node invariants: try_read = version-only; for every ordered pair opts <= opts', Ok(m) under opts' implies Ok(m) under opts; each gate rejects exactly its strings (nibble != 2; reserved bits {0,1,2,3,10,11,13}; control P/O) and is otherwise transparent (full result equality, error lists included); with all checks off, normalising the owned bits leaves the result unchanged (data-message P/O excluded). distinct_nontrivial = distinct (flag word, body) pairs.",
             assumptions: vec!["when the version nibble is wrong and a reserved bit is set only rejection is required (which gate fires first is not specified)"],
             real: vec!["Message::try_read", "Message::try_read_validate", "Flags", "ControlMessage::try_read unused-field checks"],
             stub: vec!["eight receiver configurations as eight nodes fed the identical delivery", "reference sender for the bodies"],
